@@ -17,7 +17,7 @@ EXPLANATION = (
     "on the address arm, the UTXO map unconditionally; R5 every script-to-address attribution goes through "
     "Address::from_script(_, the UTXO set's network); R6 byte order of the height key (big endian XOR 0xff) agrees with "
     "Ord for Utxo (height descending, then outpoint, then value), the scan bounds are the extremes of that order and both "
-    "inclusive; R8 both merged sources are filtered by the spent set, apply_block records every removed and added "
+    "inclusive; R7 every block up to the tip the answer names is applied to the address view, for every request kind; R8 both merged sources are filtered by the spent set, apply_block records every removed and added "
     "outpoint. Does NOT decide: ledger equality itself (values, spent/unspent status over all histories), same-block "
     "spends, correctness of the merge of the two sorted sources.")
 RULES = {
@@ -27,6 +27,7 @@ RULES = {
     'R4': 'co-location of index / balance / delta writes; unconditional UTXO write',
     'R5': 'attribution sites use Address::from_script with the set\'s network',
     'R6': 'encoder of Height vs Ord for Utxo; scan bounds',
+    'R7': 'every admitted block is applied, coupled with the tip label (= C04.R2/R4)',
     'R8': 'spent filter on both sources; apply_block records removed and added outpoints',
 }
 ASSUMPTIONS = ['ic-stable-structures orders keys lexicographically by their bytes']
@@ -50,6 +51,11 @@ def run(ctx):
     r3_r4_r5(ctx)
     r6(ctx)
     r8(ctx)
+    # R7: every admitted block of the walked chain is applied, together with the tip label the answer
+    # names (shared with C04.R2/R4), for every request kind (no request-dependent shortcut)
+    from sa.engine import SubCtx
+    from rules import c04
+    c04.run(SubCtx(ctx, {'R2': 'R7', 'R4': 'R7'}))
 
 
 def r1(ctx):
